@@ -43,6 +43,7 @@ func (e *Engine) execInstr(s *State, in ssa.Instruction) []*State {
 			e.unsupportedf("field address through %v pointer at %s", p.A.K, e.P.Pos(in.Pos()))
 		}
 		e.nilCheck(s, p, x.X.Type(), in)
+		s.assume(not(eq(p.L[0], "0"))) // past a field access the pointer was non-nil (else the nilderef obligation / trusted assumption)
 		set(x, &Val{A: &Addr{K: AField, Base: p.L[0], SKey: structKey(st), Path: "." + f.Name(), T: f.Type(), Fresh: s.FreshRefs[p.L[0]]}, NN: true})
 	case *ssa.Field:
 		v := e.val(s, x.X)
